@@ -38,4 +38,17 @@ Section O.
     destruct (fs c2) eqn:E2; [intros [= <-]; split; auto 10|].
     destruct (fs c3) eqn:E3; [intros [= <-]; split; auto 10|discriminate].
   Qed.
+  (* VMDK: the parent next to the child wins over the one the hint's directory names; none found is an error *)
+  Theorem vmdk_parent_first_existing same up r :
+    vmdk_open_parent fs true same up = Ok (Some r) ->
+    fs r = true /\ (r = same \/ (fs same = false /\ r = up)).
+  Proof.
+    unfold vmdk_open_parent. cbn [negb].
+    destruct (fs same) eqn:E0; [intros [= <-]; auto|].
+    destruct (fs up) eqn:E1; [intros [= <-]; auto|discriminate].
+  Qed.
+
+  Theorem vmdk_parent_required same up :
+    fs same = false -> fs up = false -> vmdk_open_parent fs true same up = Err.
+  Proof. intros H1 H2. unfold vmdk_open_parent. cbn [negb]. now rewrite H1, H2. Qed.
 End O.
